@@ -107,7 +107,7 @@ theorem send_spec (w : W) (d : Option Int) (e : Ev) :
         have hok : okEvents w1.sent = okEvents w.sent := by rw [hs, okEvents_snoc]; rfl
         cases w1.fault <;> simp [hok, ht]
 
-theorem accept_inv (w : W) (d : Option Int) (h s b : Bool) (hi : Inv w) : Inv (w.accept d h s b).1 := by
+theorem accept_inv (w : W) (d : Option Int) (h s b : Bool) (he : Option Exc) (hi : Inv w) : Inv (w.accept d h s b he).1 := by
   unfold W.accept
   split
   · exact hi
@@ -117,7 +117,9 @@ theorem accept_inv (w : W) (d : Option Int) (h s b : Bool) (hi : Inv w) : Inv (w
   · exact hi
   split
   · exact hi
-  rename_i hc hs _ _
+  split
+  · exact hi
+  rename_i hc hs _ _ _
   have hst : w.st = .handshake := by simpa using hs
   rcases send_spec w d (.accept h s) with ⟨h1, h2, h3⟩ | ⟨h1, h2, h3, h4⟩
   · rcases hr : w.send_ d (.accept h s) with ⟨w1, eo⟩
@@ -212,6 +214,39 @@ theorem receive_spec (w : W) : w.receive_.1.sent = w.sent ∧ (w.receive_.1.st =
   · exact ⟨rfl, Or.inr rfl⟩
   · exact ⟨rfl, Or.inl rfl⟩
 
+/-- **an abandoned (parked, then cancelled) receive leaves no trace**: whatever the state, the socket object - state, close code,
+    everything sent, the pump, the client events not yet consumed - is exactly what it was -/
+theorem recvAbandoned_noop (w : W) (k : RecvKind) : (w.recvAbandoned k).1 = w := by
+  unfold W.recvAbandoned
+  split
+  · rfl
+  · split <;> rfl
+
+/-- on an accepted socket whose pump runs it also raises nothing -/
+theorem recvAbandoned_ok (w : W) (k : RecvKind) (hst : w.st = .accepted) (hp : w.pumpStopped = false) :
+    w.recvAbandoned k = (w, none) := by
+  simp [W.recvAbandoned, W.requireAccepted, hst, hp]
+
+/-- in the wrong state it raises what the plain receive raises, at once -/
+theorem recvAbandoned_wrong_state (w : W) (k : RecvKind) (h : w.st ≠ .accepted ∨ w.pumpStopped = true) :
+    w.recvAbandoned k = w.recv k := by
+  unfold W.recvAbandoned W.recv
+  rcases h with h | h
+  · cases hst : w.st <;> simp_all [W.requireAccepted]
+  · cases hst : w.st <;> simp [W.requireAccepted, h]
+
+/-- **the session continues as if the abandoned receive had never been issued**: for every script around it (any per-op catch
+    behaviour and observed flags), on an accepted socket with a running pump, the rest of the script runs from the same socket
+    against the same client events - so the next `receive_*` gets the next client message, a send goes out, and `close(code)` sends
+    the responder's own code -; the only difference is the `ok` entry the abandoned call leaves in the log -/
+theorem abandoned_receive_session_continues (w : W) (k : RecvKind) (c : Catch) (d : Option Int) (rest : List Step)
+    (log : List (Option Exc)) (hst : w.st = .accepted) (hp : w.pumpStopped = false) :
+    runScript w ((.recvAbandoned k, c, d) :: rest) log = runScript w rest (log ++ [none]) := by
+  simp [runScript, W.op, recvAbandoned_ok w k hst hp]
+
+theorem recvAbandoned_inv (w : W) (k : RecvKind) (hi : Inv w) : Inv (w.recvAbandoned k).1 := by
+  rw [recvAbandoned_noop]; exact hi
+
 theorem recv_inv (w : W) (k : RecvKind) (hi : Inv w) : Inv (w.recv k).1 := by
   have hr := receive_spec w
   have key : Inv w.receive_.1 := hi.weaken (by rw [hr.1]) hr.2
@@ -231,10 +266,11 @@ theorem recv_inv (w : W) (k : RecvKind) (hi : Inv w) : Inv (w.recv k).1 := by
 
 theorem op_inv (w : W) (d : Option Int) (o : Op) (hi : Inv w) : Inv (w.op d o).1 := by
   cases o with
-  | accept h s b => exact accept_inv w d h s b hi
+  | accept h s b he => exact accept_inv w d h s b he hi
   | close a r => exact close_inv w d a r hi
   | send k => exact sendMsg_inv w d k hi
   | recv k => exact recv_inv w k hi
+  | recvAbandoned k => exact recvAbandoned_inv w k hi
   | raiseHttp s => exact hi
   | raiseStatus s => exact hi
   | raiseExc => exact hi
@@ -448,8 +484,8 @@ theorem wrong_state_recv (w : W) (k : RecvKind) :
     (w.st = .closed → w.recv k = (w, some (wsd w.closeCode))) := by
   constructor <;> intro h <;> simp [W.recv, W.requireAccepted, h]
 
-theorem wrong_state_accept (w : W) (d : Option Int) (hd s b : Bool) (h : w.st ≠ .handshake ∨ d.isSome = true) :
-    w.accept d hd s b = (w, some .notAllowed) := by
+theorem wrong_state_accept (w : W) (d : Option Int) (hd s b : Bool) (he : Option Exc) (h : w.st ≠ .handshake ∨ d.isSome = true) :
+    w.accept d hd s b he = (w, some .notAllowed) := by
   unfold W.accept W.isClosed
   rcases h with h | h
   · cases hst : w.st <;> simp_all
@@ -722,8 +758,10 @@ theorem close_sane (b : Bool) (w : W) (d : Option Int) (a : CodeArg) (r : Bool) 
       · exact hgo _
   · exact hgo _
 
-theorem accept_sane (b : Bool) (w : W) (d : Option Int) (hd s bs : Bool) (h : SaneB b w) : SaneB b (w.accept d hd s bs).1 := by
+theorem accept_sane (b : Bool) (w : W) (d : Option Int) (hd s bs : Bool) (he : Option Exc) (h : SaneB b w) : SaneB b (w.accept d hd s bs he).1 := by
   unfold W.accept
+  split
+  · exact h
   split
   · exact h
   split
@@ -751,6 +789,9 @@ theorem receive_frame (w : W) : w.receive_.1.sent = w.sent ∧ w.receive_.1.supR
   unfold W.receive_
   split <;> exact ⟨rfl, rfl⟩
 
+theorem recvAbandoned_sane (b : Bool) (w : W) (k : RecvKind) (h : SaneB b w) : SaneB b (w.recvAbandoned k).1 := by
+  rw [recvAbandoned_noop]; exact h
+
 theorem recv_sane (b : Bool) (w : W) (k : RecvKind) (h : SaneB b w) : SaneB b (w.recv k).1 := by
   have key : SaneB b w.receive_.1 := h.congr (receive_frame w).1 (receive_frame w).2
   unfold W.recv
@@ -769,10 +810,11 @@ theorem recv_sane (b : Bool) (w : W) (k : RecvKind) (h : SaneB b w) : SaneB b (w
 
 theorem op_sane (b : Bool) (w : W) (d : Option Int) (o : Op) (h : SaneB b w) : SaneB b (w.op d o).1 := by
   cases o with
-  | accept hd s bs => exact accept_sane b w d hd s bs h
+  | accept hd s bs he => exact accept_sane b w d hd s bs he h
   | close a r => exact close_sane b w d a r h
   | send k => exact sendMsg_sane b w d k h
   | recv k => exact recv_sane b w k h
+  | recvAbandoned k => exact recvAbandoned_sane b w k h
   | raiseHttp s => exact h
   | raiseStatus s => exact h
   | raiseExc => exact h
